@@ -410,5 +410,9 @@ func walkClass(path, typeClass string) string {
 	case outer == "ConditionalExpr" && (parent == "TupleConsExpr" && seqOK || parent == "ObjectConsExpr" && mapOK):
 		return "conforming-literal-in-conditional"
 	}
-	return "unwalked:literal-kind-does-not-match-declared-type"
+	if outer == "TupleConsExpr" || outer == "ObjectConsExpr" || outer == "ConditionalExpr" {
+		return "unwalked:literal-kind-does-not-match-declared-type"
+	}
+	// anything else the type-directed walk does enter (calls, operators, templates, parentheses, plain traversals)
+	return "walked:" + outer
 }
